@@ -1,8 +1,10 @@
+"""usage: tools/margins.py <seed> [ID ...] -- runs the quick checks and lists the require minima that are
+within 2.5x of the measured class counts (audit of generator margins; not part of any check)"""
 import sys, subprocess, importlib, os, re
 sys.path.insert(0, "/verif"); sys.path.insert(0, "/repo")
 seed = sys.argv[1]
-for i in range(1, 21):
-    pid = "C%02d" % i
+ids = sys.argv[2:] or ["C%02d" % i for i in range(1, 21)]
+for pid in ids:
     mod = importlib.import_module("vlib.props." + pid.lower())
     req = {}
     for part in mod.parts("quick"):
